@@ -889,8 +889,13 @@ static bool mi_manage_os_memory_ex2(void* start, size_t size, bool is_large, int
     mi_bitmap_index_t postidx = mi_bitmap_index_create(fields - 1, MI_BITMAP_FIELD_BITS - post);
     _mi_bitmap_claim(arena->blocks_inuse, fields, post, postidx, NULL);
   }
-  return mi_arena_add(arena, arena_id, &_mi_stats_main);
-
+  if (!mi_arena_add(arena, arena_id, &_mi_stats_main)) {
+    // the arena table is full: release the meta data again (the caller releases the memory of the arena itself)
+    mi_lock_done(&arena->abandoned_visit_lock);
+    _mi_arena_meta_free(arena, meta_memid, asize);
+    return false;
+  }
+  return true;
 }
 
 bool mi_manage_os_memory_ex(void* start, size_t size, bool is_committed, bool is_large, bool is_zero, int numa_node, bool exclusive, mi_arena_id_t* arena_id) mi_attr_noexcept {
